@@ -57,6 +57,17 @@ let () = iter_lines (fun line ->
   | ["dcsp"; d] -> to_s (dump_csp (List.map kv (split '|' d)))
   | ["ccget"; d; k; e; t] -> show_ccval (cc_get (List.map kv_opt (split '|' d)) (s_of k) (ccval e) (ccty t))
   | ["ccset"; d; k; v; t] -> res show_od (cc_set (List.map kv_opt (split '|' d)) (s_of k) (ccval v) (ccty t))
+  | ["b64e"; v] -> to_s (b64encode (s_of v))
+  | ["basic"; u; pw] -> to_s (basic_to_header (s_of u) (s_of pw))
+  | ["tokhdr"; sch; tok] -> to_s (token_to_header (s_of sch) (s_of tok))
+  | ["fdate"; w; d; mo; y; h; mi; se] ->
+      let n x = n_of_int (int_of_string x) in
+      to_s (format_http_date { f_wday = n w; f_day = n d; f_mon = n mo; f_year = n y; f_hour = n h; f_min = n mi; f_sec = n se })
+  | ["pdate"; v] ->
+      (match parse_http_date (s_of v) with
+       | None -> "~"
+       | Some (((((d, mo), y), h), mi), se) -> String.concat " " (List.map (fun x -> string_of_int (int_of_n x)) [d; mo; y; h; mi; se]))
+  | ["title"; v] -> to_s (py_title (s_of v))
   | ["pint"; v] -> res tz (plain_int (s_of v))
   | ["int"; v] -> res tz (py_int (s_of v))
   | _ -> "bad-command")
